@@ -117,6 +117,26 @@ def applySeq (apps : List (String × Table)) (t : LTy) : Out LTy :=
   | [] => .ok t
   | (ns, tbl) :: rest => (applyNs "" tbl ns [] t).bind (applySeq rest)
 
+/-- `ApplyNamespace(tbl, ns)` called on the scope(s) at position `target` inside a larger tree (an
+    already constructed scope that is about to be embedded into a new outer scope, or that keeps
+    being used on its own); the rest of the tree is untouched. -/
+def applyAt (w : String) (tbl : Table) (ns : String) (target : Path) : Path → LTy → Out LTy
+  | _, .leaf t => .ok (.leaf t)
+  | _, .nil => .ok .nil
+  | _, .ref id n link => .ok (.ref id n link)
+  | p, .list i => (applyAt w tbl ns target (p ++ ["[]"]) i).bind fun i' => .ok (.list i')
+  | p, .map k v =>
+    (applyAt w tbl ns target (p ++ ["{k}"]) k).bind fun k' =>
+      (applyAt w tbl ns target (p ++ ["{v}"]) v).bind fun v' => .ok (.map k' v')
+  | p, .obj id ps => (applyAt w tbl ns target p ps).bind fun ps' => .ok (.obj id ps')
+  | p, .oneOf d ms => (applyAt w tbl ns target p ms).bind fun ms' => .ok (.oneOf d ms')
+  | p, .scope objs root =>
+    if p == target then applyNs w tbl ns p (.scope objs root)
+    else (applyAt w tbl ns target p objs).bind fun objs' => .ok (.scope objs' root)
+  | p, .cons l h t =>
+    (applyAt w tbl ns target (p ++ [l]) h).bind fun h' =>
+      (applyAt w tbl ns target p t).bind fun t' => .ok (.cons l h' t')
+
 /-- `ValidateReferences() == nil` -/
 def validateRefs : LTy → Bool
   | .leaf _ => true
